@@ -124,13 +124,26 @@ ModelAgrees == OpInvs = DeclInvs /\ (OpExitNonZero <=> DeclExitNonZero)
 (* outcomes cargo itself knows are accepted -- an error, or every member                      *)
 NoCurrent == S.strategy = "root" /\ S.cwd # S.ws_root /\ Current = {}
 AllInvs == IF TargetsOf(Members) = {} THEN {} ELSE Invs(TargetsOf(Members))
+(* `exactly the root files of all targets of the selected packages, each file once, each with  *)
+(* the edition declared for its target': when several targets share a root file, the file is    *)
+(* passed once, with the edition of one of them                                                 *)
+Exactly(ts) ==
+  LET files(x) == x.files IN
+  /\ UNION {x.files : x \in ObsInvs} = {t.path : t \in ts}
+  /\ \A x \in ObsInvs : \A f \in x.files : [path |-> f, edition |-> x.edition] \in ts
+  /\ \A x, y \in ObsInvs : x # y => x.files \cap y.files = {}
+  /\ \A x, y \in ObsInvs : x.edition = y.edition => x = y
+  /\ \A x \in ObsInvs : x.files # {}
+DeclTargets == IF DeclSelected.err THEN {} ELSE TargetsOf(DeclSelected.pk)
 RightTargets ==
-  HasObs => /\ (ObsInvs = DeclInvs \/ (NoCurrent /\ ObsInvs = AllInvs))
+  HasObs => /\ (Exactly(DeclTargets) \/ (NoCurrent /\ Exactly(TargetsOf(Members))))
             /\ EachOnce /\ Len(S.inv) = Cardinality(ObsInvs)
+(* (the invocations themselves are judged by RightTargets; the status follows the ones made) *)
+ObsExitNonZero == DeclSelected.err \/ DeclTargets = {} \/ \E i \in ObsInvs : StatusOf(i.edition) # 0
 RightExit ==
-  HasObs => \/ ((S.exit # 0) <=> DeclExitNonZero)
-            \/ (NoCurrent /\ ObsInvs = AllInvs /\ ObsInvs # {}
-                  /\ ((S.exit # 0) <=> \E i \in AllInvs : StatusOf(i.edition) # 0))
+  HasObs => \/ ((S.exit # 0) <=> ObsExitNonZero)
+            \/ (NoCurrent /\ Exactly(TargetsOf(Members)) /\ ObsInvs # {}
+                  /\ ((S.exit # 0) <=> \E i \in ObsInvs : StatusOf(i.edition) # 0))
 AsModel == HasObs => ObsInvs = OpInvs /\ ((S.exit # 0) <=> OpExitNonZero)
 
 ReportInv ==
